@@ -658,7 +658,7 @@ func TestVerifC01ReqFraming(t *testing.T) {
 	vfOpen(t)
 	rng := vfRand()
 	quick := vfQuick()
-	cfgPerVec := vfEnvInt("VERIF_C01_CFGS", map[bool]int{true: 1, false: 3}[quick])
+	cfgPerVec := vfEnvInt("VERIF_C01_CFGS", map[bool]int{true: 1, false: 5}[quick])
 	pipeEvery := vfEnvInt("VERIF_C01_PIPE_EVERY", map[bool]int{true: 40, false: 10}[quick])
 	servers := map[c01Cfg]*Server{}
 	getServer := func(c c01Cfg) *Server {
